@@ -15,7 +15,10 @@ EXPLANATION = (
 def run(ctx):
     ctx.uses('simulator', 'model', 'statistics')
     sc = S.SimCtx(ctx.prog)
+    S.shared_state(ctx, sc, 'R6.5')
     S.r61_initialize_order(ctx, sc)
     S.r62_registries(ctx, sc)
     S.r63_reset_completeness(ctx, sc)
     S.r64_config_containers(ctx, sc)
+    # replications are chained from END_REPLICATION listeners: the end must be announced last (shared rule with C04)
+    S.r43_notifications(ctx, sc)
